@@ -307,21 +307,34 @@ def xfer(index, rep):
     # not written during it: every herd of the pass reads what the dairy herd recorded, whichever of them is processed first
     from .core import args_by_ref_names, Inliner as _Inl6
     ccp = index.func(ANIM, "AnimalPopulation.calculate_change_in_population")
+    # (the pass may sit in the month loop itself or in a helper the month loop calls: it is looked for where the step is called)
+    host = ml
     step_calls = [c for c in ast.walk(ml) if isinstance(c, ast.Call) and (dotted(c.func) or "").endswith("calculate_change_in_population")]
+    if not step_calls:
+        for f_ in [x for x in ast.walk(index.module(ANIM)) if isinstance(x, ast.FunctionDef) and x is not ccp]:
+            cs_ = [c for c in walk_no_nested(f_) if isinstance(c, ast.Call) and (dotted(c.func) or "").endswith("calculate_change_in_population")]
+            if cs_:
+                step_calls += cs_
+                host = f_
     if len(step_calls) != 1:
         raise AnalysisError("month loop: expected one call of calculate_change_in_population")
     step_loop = None
-    for f_ in ast.walk(ml):
+    for f_ in ast.walk(host):
         if isinstance(f_, ast.For) and f_ is not ml and any(n_ is step_calls[0] for n_ in ast.walk(f_)):
             if step_loop is None or any(n_ is f_ for n_ in ast.walk(step_loop)):
                 step_loop = f_          # the innermost loop around the call: the per-animal slaughter pass
     add_e = args_by_ref_names(step_calls[0], ccp, ["animal", "country_object", "new_additive_animals_month", "remaining_hours_this_size"], method=False)[2]
     tables = set()
     if add_e is not None and step_loop is not None:
-        defs_ = [add_e] + [s_.value for s_ in ast.walk(step_loop) if isinstance(s_, ast.Assign) and isinstance(add_e, ast.Name)
-                           and any(isinstance(t_, ast.Name) and t_.id == add_e.id for t_ in s_.targets)]
-        for d_ in defs_:
+        work, seen_n = [add_e], set()
+        while work:
+            d_ = work.pop()
             tables |= {n_.value.id for n_ in ast.walk(d_) if isinstance(n_, ast.Subscript) and isinstance(n_.value, ast.Name)}
+            for n_ in ast.walk(d_):
+                if isinstance(n_, ast.Name) and isinstance(n_.ctx, ast.Load) and n_.id not in seen_n:
+                    seen_n.add(n_.id)
+                    work += [s_.value for s_ in ast.walk(step_loop) if isinstance(s_, ast.Assign)
+                             and any(isinstance(t_, ast.Name) and t_.id == n_.id for t_ in s_.targets)]
     rewrites = [s_ for s_ in ast.walk(step_loop) if isinstance(s_, (ast.Assign, ast.AugAssign)) for t_ in (s_.targets if isinstance(s_, ast.Assign) else [s_.target])
                 if isinstance(t_, ast.Subscript) and isinstance(t_.value, ast.Name) and t_.value.id in tables] if step_loop is not None else []
     rep.check(bool(tables) and not rewrites, rule, "transfer and births tables are not rewritten during the slaughter pass",
